@@ -12,10 +12,17 @@ hand proofs at the only places where the code inspects an error instead of `?`-p
 
 * `DirEntryData::deserialize` (`readSlot`) catches `UnexpectedEof` only, every other error is re-raised unchanged;
 * `alloc_cluster` (`Table.allocCluster`) retries on `NotEnoughSpace` only (after fix F9);
-* `write_entry` (`writeSlotsKeep`/`writeEntry`) keeps the error of a slot write while the positioned clone of the
-  directory is dropped and then re-raises it;
+* `write_entry` (`writeSlotsKeep`/`writeEntry`) keeps the error of a slot write, rolls back the slots written so far
+  (`free_written_entries(..)?`, fixes 7e7a6f2 + 68bd139), drops the positioned clone of the directory and re-raises the
+  kept error. The roll-back is `?`-propagated, so a fault that fires inside it is reported
+  (`entryRollback_propagates`); the one residual exception (`EntryRollbackX`, same flavour as `RollbackErr`): the fault
+  hit a slot write and the roll-back, run afterwards, itself ends in an error, which is returned instead. So
+  `create_file`, `rename`, `create_dir` (the users of `write_entry`) satisfy `Propagates` up to that outcome:
+  `…_propagates_partial`, with conditional corollaries `…_propagates_of_rollback`;
 * `create_dir` gives the new cluster back when the entry cannot be written (`free_cluster_chain(cluster)?`) and
-  re-raises the error only if that roll-back succeeded: `createDir_propagates_partial`.
+  re-raises the error only if that roll-back succeeded (`RollbackErr`): `createDir_propagates_partial`;
+* `rename_internal`'s ancestor walk returns `InvalidInput`/`CorruptedFileSystem` of its own (user errors); its
+  fuel-exhaustion `hang` sits outside destructor bodies.
 
 Destructors (`impl Drop for File`, `for FileSystem`) swallow errors; they are shown never to panic or hang
 (`NonFatal`), so that they cannot replace the error in flight. -/
@@ -43,14 +50,37 @@ theorem openDir_propagates (env : Env) (fuel : Nat) (d : DirStream) (path : Stri
 theorem openFile_propagates (env : Env) (fuel : Nat) (d : DirStream) (path : String) :
     Propagates (openFile env fuel d path) := ioSafe_propagates (openFile_ioSafe env fuel d path)
 
-theorem createFile_propagates (env : Env) (fuel : Nat) (d : DirStream) (path : String) :
-    Propagates (createFile env fuel d path) := ioSafe_propagates (createFile_ioSafe env fuel d path)
+/-- `create_file`, PARTIAL: up to an error of `write_entry`'s roll-back run after the fault (`EntryRollbackX`) -/
+theorem createFile_propagates_partial (env : Env) (fuel : Nat) (d : DirStream) (path : String) :
+    PropagatesX EntryRollbackX (createFile env fuel d path) := createFile_propagatesX env fuel d path
 
 theorem remove_propagates (env : Env) (fuel : Nat) (d : DirStream) (path : String) :
     Propagates (remove env fuel d path) := ioSafe_propagates (remove_ioSafe env fuel d path)
 
-theorem rename_propagates (env : Env) (fuel : Nat) (d : DirStream) (src : String) (dst : DirStream) (dstPath : String) :
-    Propagates (rename env fuel d src dst dstPath) := ioSafe_propagates (rename_ioSafe env fuel d src dst dstPath)
+/-- `rename`, PARTIAL: up to an error of `write_entry`'s roll-back run after the fault (`EntryRollbackX`) -/
+theorem rename_propagates_partial (env : Env) (fuel : Nat) (d : DirStream) (src : String) (dst : DirStream)
+    (dstPath : String) : PropagatesX EntryRollbackX (rename env fuel d src dst dstPath) :=
+  rename_propagatesX env fuel d src dst dstPath
+
+/-- the semantic hypothesis under which the residual exception disappears: run after a fault has fired,
+    `free_written_entries` never ends in an error (it only seeks inside the range just written and overwrites one byte
+    per slot — a fact about the directory stream, not about error flow; not proved here) -/
+def EntryRollbackNeverFails : Prop :=
+  ∀ (st : DirStream) (pos : Nat) (d1 d2 : Dev) (e : Err), d1.failAt = none → d1.fault ≠ none →
+    run (freeWrittenEntries st pos) d1 ≠ (.error e, d2)
+
+theorem EntryRollbackNeverFails.noX (h : EntryRollbackNeverFails) : ∀ f e, ¬ EntryRollbackX f e := by
+  rintro f e ⟨st, pos, d1, d2, h1, h2, h3⟩
+  exact h st pos d1 d2 e h1 (by rw [h2]; simp) h3
+
+theorem createFile_propagates_of_rollback (env : Env) (fuel : Nat) (d : DirStream) (path : String)
+    (h : EntryRollbackNeverFails) : Propagates (createFile env fuel d path) :=
+  (createFile_propagatesX env fuel d path).toPropagates h.noX
+
+/-- … hence plain `Propagates` under that hypothesis -/
+theorem rename_propagates_of_rollback (env : Env) (fuel : Nat) (d : DirStream) (src : String) (dst : DirStream)
+    (dstPath : String) (h : EntryRollbackNeverFails) : Propagates (rename env fuel d src dst dstPath) :=
+  (rename_propagatesX env fuel d src dst dstPath).toPropagates h.noX
 
 theorem listDir_propagates (d : DirStream) : Propagates (listDir d) := ioSafe_propagates (listDir_ioSafe d)
 
@@ -84,22 +114,29 @@ theorem readVolumeLabelFromRootDir_propagates : Propagates readVolumeLabelFromRo
     the write of the new directory's entry and the roll-back `free_cluster_chain(cluster)?` then failed too, the error
     `e` of that roll-back (`RollbackErr f e`: `e` is the result of some run of `freeClusterChain` started after `f`
     fired). What is missing for plain `Propagates`: that freeing the single, just allocated cluster cannot fail once
-    no device call can fail any more — a fact about the FAT contents, not about error flow. -/
+    no device call can fail any more — a fact about the FAT contents, not about error flow. Since `create_dir` writes
+    three entries with `write_entry`, the outcomes of THAT roll-back (`EntryRollbackX`) are tolerated too:
+    `ApiX = RollbackErr ∨ EntryRollbackX` (both: an error of a roll-back run after the fault). -/
 theorem createDir_propagates_partial (env : Env) (fuel : Nat) (d : DirStream) (path : String) :
-    PropagatesX RollbackErr (createDir env fuel d path) := createDir_propagatesX env fuel d path
+    PropagatesX ApiX (createDir env fuel d path) := createDir_propagatesX env fuel d path
 
 /-- … hence plain `Propagates` under the semantic hypothesis that the roll-back never fails after a fault -/
 theorem createDir_propagates_of_rollback (env : Env) (fuel : Nat) (d : DirStream) (path : String)
     (hfree : ∀ (c : Nat) (d1 d2 : Dev) (e : Err), d1.failAt = none → d1.fault ≠ none →
-      run (freeClusterChain c) d1 ≠ (.error e, d2)) :
+      run (freeClusterChain c) d1 ≠ (.error e, d2))
+    (hE : EntryRollbackNeverFails) :
     Propagates (createDir env fuel d path) := by
   refine (createDir_propagatesX env fuel d path).toPropagates ?_
-  rintro f e ⟨c, d1, d2, h1, h2, h3⟩
-  exact hfree c d1 d2 e h1 (by rw [h2]; simp) h3
+  intro f e hx
+  unfold ApiX at hx
+  rcases hx with ⟨c, d1, d2, h1, h2, h3⟩ | hx
+  · exact hfree c d1 d2 e h1 (by rw [h2]; simp) h3
+  · exact hE.noX f e hx
 
 /-! ## summary -/
 
-/-- the programs `Session.step` runs, operation by operation (Model/Api.lean); `createDir` is listed separately -/
+/-- the programs `Session.step` runs, operation by operation (Model/Api.lean); the users of `write_entry`
+    (`createDir`, `createFile`, `rename`) are listed separately in `ApiProgAll` -/
 inductive ApiProg : {α : Type} → Prog α → Prop where
   | format (o : Format.FormatOpts) : ApiProg (formatVolume o)
   | mount (strict accDate lfnAlloc unicode : Bool) : ApiProg (FatVerif.mount strict accDate lfnAlloc unicode)
@@ -107,10 +144,7 @@ inductive ApiProg : {α : Type} → Prog α → Prop where
   | dropfs (root : DirStream) : ApiProg (do root.drop; dropFs)
   | openDir (env : Env) (fuel : Nat) (d : DirStream) (path : String) : ApiProg (FatVerif.openDir env fuel d path)
   | openFile (env : Env) (fuel : Nat) (d : DirStream) (path : String) : ApiProg (FatVerif.openFile env fuel d path)
-  | createFile (env : Env) (fuel : Nat) (d : DirStream) (path : String) : ApiProg (FatVerif.createFile env fuel d path)
   | remove (env : Env) (fuel : Nat) (d : DirStream) (path : String) : ApiProg (FatVerif.remove env fuel d path)
-  | rename (env : Env) (fuel : Nat) (d : DirStream) (src : String) (d2 : DirStream) (dst : String) :
-      ApiProg (FatVerif.rename env fuel d src d2 dst)
   | list (d : DirStream) : ApiProg (listDir d)
   | read (f : FileH) (n : Nat) : ApiProg (f.read n)            -- also each iteration of `readx`, `readall`
   | write (f : FileH) (bs : List Nat) : ApiProg (f.write bs)   -- also each iteration of `writeall`
@@ -132,9 +166,7 @@ theorem api_ioSafe {α : Type} {p : Prog α} (h : ApiProg p) : IoSafe p := by
   | dropfs root => exact IoSafe.bind _ _ root.drop_ioSafe (fun _ => dropFs_ioSafe)
   | openDir => exact openDir_ioSafe _ _ _ _
   | openFile => exact openFile_ioSafe _ _ _ _
-  | createFile => exact createFile_ioSafe _ _ _ _
   | remove => exact remove_ioSafe _ _ _ _
-  | rename => exact rename_ioSafe _ _ _ _ _ _
   | list => exact listDir_ioSafe _
   | read f n => exact f.read_ioSafe n
   | write f bs => exact f.write_ioSafe bs
@@ -148,20 +180,26 @@ theorem api_ioSafe {α : Type} {p : Prog α} (h : ApiProg p) : IoSafe p := by
   | status => exact readStatusFlags_ioSafe
   | labelRoot => exact readVolumeLabelFromRootDir_ioSafe
 
-/-- **C09**: every program a public operation runs (other than `create_dir`, see `createDir_propagates_partial`)
+/-- **C09**: every program a public operation runs (other than `create_dir`, `create_file`, `rename`, see the
+    `…_propagates_partial` theorems)
     reports a storage error that occurs outside a destructor as `Err.io k`, `k` the index of the failed call -/
 theorem api_propagates {α : Type} {p : Prog α} (h : ApiProg p) : Propagates p := ioSafe_propagates (api_ioSafe h)
 
-/-- all programs of the API, `create_dir` included -/
+/-- all programs of the API, `create_dir`, `create_file` and `rename` included -/
 inductive ApiProgAll : {α : Type} → Prog α → Prop where
   | base {α : Type} {p : Prog α} : ApiProg p → ApiProgAll p
   | createDir (env : Env) (fuel : Nat) (d : DirStream) (path : String) : ApiProgAll (FatVerif.createDir env fuel d path)
+  | createFile (env : Env) (fuel : Nat) (d : DirStream) (path : String) : ApiProgAll (FatVerif.createFile env fuel d path)
+  | rename (env : Env) (fuel : Nat) (d : DirStream) (src : String) (d2 : DirStream) (dst : String) :
+      ApiProgAll (FatVerif.rename env fuel d src d2 dst)
 
-/-- the whole API including `create_dir`, up to the error of a failed roll-back -/
-theorem api_propagates_all {α : Type} {p : Prog α} (h : ApiProgAll p) : PropagatesX RollbackErr p := by
+/-- the whole API, up to the outcomes of the two roll-backs (`ApiX`) -/
+theorem api_propagates_all {α : Type} {p : Prog α} (h : ApiProgAll p) : PropagatesX ApiX p := by
   cases h with
   | base h => exact (api_propagates h).toX
   | createDir env fuel d path => exact createDir_propagatesX env fuel d path
+  | createFile env fuel d path => exact (createFile_propagatesX env fuel d path).mono (fun _ _ h => Or.inr h)
+  | rename env fuel d src d2 dst => exact (rename_propagatesX env fuel d src d2 dst).mono (fun _ _ h => Or.inr h)
 
 /-! ## `Session.step` runs nothing else
 
@@ -318,14 +356,14 @@ theorem step_apiRuns (s : Session) (op : ApiOp) : ApiRuns s.dev (s.step op).1.de
     refine withDir_apiRuns s d (fun h => ?_)
     split
     · exact ApiRuns.refl _
-    · exact runOp_apiRuns s (.base (.createFile _ _ _ _)) (fun _ _ => rfl)
+    · exact runOp_apiRuns s (.createFile _ _ _ _) (fun _ _ => rfl)
   | remove d path =>
     simp only
     exact withDir_apiRuns s d (fun h => runOp_apiRuns s (.base (.remove _ _ _ _)) (fun _ _ => rfl))
   | rename d src d2 dst =>
     simp only
     exact withDir_apiRuns s d (fun h => withDir_apiRuns s d2 (fun h2 =>
-      runOp_apiRuns s (.base (.rename _ _ _ _ _ _)) (fun _ _ => rfl)))
+      runOp_apiRuns s (.rename _ _ _ _ _ _) (fun _ _ => rfl)))
   | list d =>
     simp only
     exact withDir_apiRuns s d (fun h => runOp_apiRuns s (.base (.list _)) (fun _ _ => rfl))
